@@ -48,7 +48,15 @@ pub fn scrub(mut j: Vec<u8>) -> Vec<u8> {
     j
 }
 fn junk() -> BoxedStrategy<Vec<u8>> {
-    let tail = prop::sample::select(vec![vec![], b"D".to_vec(), b"DL".to_vec(), b"DLT".to_vec(), b"DLTD".to_vec(), b"DLTDL".to_vec(), b"DLTDLT".to_vec()]);
+    let tail = prop::sample::select(vec![
+        vec![],
+        b"D".to_vec(),
+        b"DL".to_vec(),
+        b"DLT".to_vec(),
+        b"DLTD".to_vec(),
+        b"DLTDL".to_vec(),
+        b"DLTDLT".to_vec(),
+    ]);
     prop_oneof![
         2 => Just(vec![]),
         4 => (vec(prop::sample::select(vec![b'D', b'L', b'T', 1u8, 0, 9]), 0..40), tail.clone()).prop_map(|(mut a, t)| { a.extend(t); a }),
@@ -80,8 +88,15 @@ fn junk() -> BoxedStrategy<Vec<u8>> {
 
 fn check_search(buf: &[u8]) -> CheckResult {
     let want = refcodec::find_pattern(buf);
-    let got = guard(|| forward_to_next_storage_header(buf).map(|(n, rest)| (n, rest.len(), rest.as_ptr() as usize)))
-        .map_err(|p| Violation::from_panic(&format!("forward_to_next_storage_header on {}", hex_short(buf)), &p))?;
+    let got = guard(|| {
+        forward_to_next_storage_header(buf).map(|(n, rest)| (n, rest.len(), rest.as_ptr() as usize))
+    })
+    .map_err(|p| {
+        Violation::from_panic(
+            &format!("forward_to_next_storage_header on {}", hex_short(buf)),
+            &p,
+        )
+    })?;
     match (want, got) {
         (None, None) => Ok(Pass::new(buf.len() >= 4).class("search:absent")),
         (Some(k), Some((n, rest_len, ptr))) => {
@@ -94,27 +109,47 @@ fn check_search(buf: &[u8]) -> CheckResult {
                 let mut scratch = buf.to_vec();
                 let later = refcodec::find_pattern(&buf[k + 1..]).map(|p| p + k + 1);
                 scratch[k + 3] = 0x02;
-                let vain = guard(|| forward_to_next_storage_header(&scratch).map(|(n, _)| n)).map_err(|p| Violation::from_panic("forward_to_next_storage_header", &p))?;
+                let vain = guard(|| forward_to_next_storage_header(&scratch).map(|(n, _)| n))
+                    .map_err(|p| Violation::from_panic("forward_to_next_storage_header", &p))?;
                 if vain.map(|n| n as usize) != later {
-                    return Err(viol!("search:presence", "pattern position is {:?} but the search returned {:?} ({})", later, vain, hex_short(&scratch)));
+                    return Err(viol!(
+                        "search:presence",
+                        "pattern position is {:?} but the search returned {:?} ({})",
+                        later,
+                        vain,
+                        hex_short(&scratch)
+                    ));
                 }
                 let _ = guard(|| dlt_message(&scratch, None, true).map(|(r, _)| r.len()));
                 scratch[k + 3] = 0x01;
-                let again = guard(|| forward_to_next_storage_header(&scratch).map(|(n, _)| n)).map_err(|p| Violation::from_panic("forward_to_next_storage_header", &p))?;
+                let again = guard(|| forward_to_next_storage_header(&scratch).map(|(n, _)| n))
+                    .map_err(|p| Violation::from_panic("forward_to_next_storage_header", &p))?;
                 if again != Some(k as u64) {
                     return Err(viol!("search:history", "the same buffer searched in vain a moment ago and refilled: the pattern at {} is reported at {:?} ({})", k, again, hex_short(buf)));
                 }
                 // (the reused buffer first: nothing else is parsed between the vain attempt and this one)
-                let reused = guard(|| dlt_message(&scratch, None, true).map(|(r, pm)| (r.len(), pm))).map_err(|p| Violation::from_panic("dlt_message", &p))?;
-                let fresh = guard(|| dlt_message(buf, None, true).map(|(r, pm)| (r.len(), pm))).map_err(|p| Violation::from_panic("dlt_message", &p))?;
+                let reused =
+                    guard(|| dlt_message(&scratch, None, true).map(|(r, pm)| (r.len(), pm)))
+                        .map_err(|p| Violation::from_panic("dlt_message", &p))?;
+                let fresh = guard(|| dlt_message(buf, None, true).map(|(r, pm)| (r.len(), pm)))
+                    .map_err(|p| Violation::from_panic("dlt_message", &p))?;
                 if format!("{:?}", fresh) != format!("{:?}", reused) {
                     return Err(viol!("parse:history", "a reused buffer parses differently from a fresh one with the same bytes: {} vs {} ({})", short_dbg(&reused), short_dbg(&fresh), hex_short(buf)));
                 }
             }
             let again = refcodec::find_pattern(&buf[k + 1..]).is_some();
-            Ok(Pass::new(true).class("search:found").class_if(k > 0, "search:junk-before").class_if(again, "search:several-patterns"))
+            Ok(Pass::new(true)
+                .class("search:found")
+                .class_if(k > 0, "search:junk-before")
+                .class_if(again, "search:several-patterns"))
         }
-        (w, g) => Err(viol!("search:presence", "pattern position is {:?} but the search returned {:?} ({})", w, g.map(|x| x.0), hex_short(buf))),
+        (w, g) => Err(viol!(
+            "search:presence",
+            "pattern position is {:?} but the search returned {:?} ({})",
+            w,
+            g.map(|x| x.0),
+            hex_short(buf)
+        )),
     }
 }
 
@@ -126,47 +161,105 @@ fn check_parse(junk: &[u8], msg: &RMsg, suffix: &[u8], filter: u8) -> CheckResul
     plain.extend_from_slice(suffix);
     let mut with = junk.to_vec();
     with.extend_from_slice(&plain);
-    let a = guard(|| dlt_message(&plain, None, true).map(|(rest, pm)| (rest.to_vec(), pm))).map_err(|p| Violation::from_panic("dlt_message", &p))?;
-    let b = guard(|| dlt_message(&with, None, true).map(|(rest, pm)| (rest.to_vec(), pm))).map_err(|p| Violation::from_panic("dlt_message with junk prefix", &p))?;
-    let bad = |what: &str, d: String| viol!(format!("junk-prefix:{}", what), "junk ++ message does not parse like message alone ({}): {}\n  junk={}\n  message={}", what, d, hex_short(junk), hex_short(&plain));
+    let a = guard(|| dlt_message(&plain, None, true).map(|(rest, pm)| (rest.to_vec(), pm)))
+        .map_err(|p| Violation::from_panic("dlt_message", &p))?;
+    let b = guard(|| dlt_message(&with, None, true).map(|(rest, pm)| (rest.to_vec(), pm)))
+        .map_err(|p| Violation::from_panic("dlt_message with junk prefix", &p))?;
+    let bad = |what: &str, d: String| {
+        viol!(
+            format!("junk-prefix:{}", what),
+            "junk ++ message does not parse like message alone ({}): {}\n  junk={}\n  message={}",
+            what,
+            d,
+            hex_short(junk),
+            hex_short(&plain)
+        )
+    };
     match (&a, &b) {
         (Ok((ra, ParsedMessage::Item(ma))), Ok((rb, ParsedMessage::Item(mb)))) => {
             msg_eq_bits(ma, mb).map_err(|d| bad("message", d))?;
             msg_eq_bits(&to_crate(msg), mb).map_err(|d| bad("not-the-original", d))?;
             if ra != rb || rb != suffix {
-                return Err(bad("remainder", format!("{} bytes left vs {} bytes left, suffix has {}", ra.len(), rb.len(), suffix.len())));
+                return Err(bad(
+                    "remainder",
+                    format!(
+                        "{} bytes left vs {} bytes left, suffix has {}",
+                        ra.len(),
+                        rb.len(),
+                        suffix.len()
+                    ),
+                ));
             }
         }
-        _ => return Err(bad("result", format!("alone: {} / with junk: {}", short_dbg(&a), short_dbg(&b)))),
+        _ => {
+            return Err(bad(
+                "result",
+                format!("alone: {} / with junk: {}", short_dbg(&a), short_dbg(&b)),
+            ))
+        }
     }
     // the same with a filter configuration: kept or filtered out, junk in front changes neither the result nor the remainder
     let f = crate::oracle::filter_by_index(filter);
     let mut filtered_out = false;
     if let Some(f) = &f {
-        let a = guard(|| dlt_message(&plain, Some(f), true).map(|(rest, pm)| (rest.to_vec(), pm))).map_err(|p| Violation::from_panic("dlt_message with filter", &p))?;
-        let b = guard(|| dlt_message(&with, Some(f), true).map(|(rest, pm)| (rest.to_vec(), pm))).map_err(|p| Violation::from_panic("dlt_message with filter and junk prefix", &p))?;
+        let a = guard(|| dlt_message(&plain, Some(f), true).map(|(rest, pm)| (rest.to_vec(), pm)))
+            .map_err(|p| Violation::from_panic("dlt_message with filter", &p))?;
+        let b = guard(|| dlt_message(&with, Some(f), true).map(|(rest, pm)| (rest.to_vec(), pm)))
+            .map_err(|p| {
+            Violation::from_panic("dlt_message with filter and junk prefix", &p)
+        })?;
         match (&a, &b) {
             (Ok((ra, ParsedMessage::Item(ma))), Ok((rb, ParsedMessage::Item(mb)))) => {
                 msg_eq_bits(ma, mb).map_err(|d| bad("filter:message", d))?;
                 if ra != rb || rb != suffix {
-                    return Err(bad("filter:remainder", format!("kept by filter #{}: {} bytes left vs {} bytes left, suffix has {}", filter, ra.len(), rb.len(), suffix.len())));
+                    return Err(bad(
+                        "filter:remainder",
+                        format!(
+                            "kept by filter #{}: {} bytes left vs {} bytes left, suffix has {}",
+                            filter,
+                            ra.len(),
+                            rb.len(),
+                            suffix.len()
+                        ),
+                    ));
                 }
             }
-            (Ok((ra, ParsedMessage::FilteredOut(na))), Ok((rb, ParsedMessage::FilteredOut(nb)))) => {
+            (
+                Ok((ra, ParsedMessage::FilteredOut(na))),
+                Ok((rb, ParsedMessage::FilteredOut(nb))),
+            ) => {
                 filtered_out = true;
                 if na != nb || ra != rb || rb != suffix {
                     return Err(bad("filter:remainder", format!("filtered out by filter #{}: FilteredOut({}) with {} bytes left vs FilteredOut({}) with {} bytes left, suffix has {}", filter, na, ra.len(), nb, rb.len(), suffix.len())));
                 }
             }
-            _ => return Err(bad("filter:result", format!("filter #{}: alone: {} / with junk: {}", filter, short_dbg(&a), short_dbg(&b)))),
+            _ => {
+                return Err(bad(
+                    "filter:result",
+                    format!(
+                        "filter #{}: alone: {} / with junk: {}",
+                        filter,
+                        short_dbg(&a),
+                        short_dbg(&b)
+                    ),
+                ))
+            }
         }
     }
     let partial = junk.ends_with(b"D") || junk.ends_with(b"DL") || junk.ends_with(b"DLT");
-    Ok(Pass::new(!junk.is_empty()).class_if(f.is_some(), "with-filter").class_if(filtered_out, "filtered-out-behind-junk").class("parse").class_if(partial, "junk-ends-with-partial-pattern").class_if(junk.len() >= 16, "junk>=16").class_if(junk.is_empty(), "no-junk"))
+    Ok(Pass::new(!junk.is_empty())
+        .class_if(f.is_some(), "with-filter")
+        .class_if(filtered_out, "filtered-out-behind-junk")
+        .class("parse")
+        .class_if(partial, "junk-ends-with-partial-pattern")
+        .class_if(junk.len() >= 16, "junk>=16")
+        .class_if(junk.is_empty(), "no-junk"))
 }
 
 fn check_stream(msgs: &[RMsg], junks: &[Vec<u8>], filter: u8) -> CheckResult {
-    if junks.iter().any(|j| refcodec::find_pattern(j).is_some()) || msgs.iter().any(|m| m.storage.is_none()) {
+    if junks.iter().any(|j| refcodec::find_pattern(j).is_some())
+        || msgs.iter().any(|m| m.storage.is_none())
+    {
         return Ok(Pass::new(false).class("outside-domain"));
     }
     let mut buf = vec![];
@@ -178,21 +271,41 @@ fn check_stream(msgs: &[RMsg], junks: &[Vec<u8>], filter: u8) -> CheckResult {
     let mut got = vec![];
     let mut input = &buf[..];
     for _ in 0..msgs.len() + 2 {
-        let r = guard(|| dlt_message(input, None, true)).map_err(|p| Violation::from_panic("dlt_message over a stream with junk", &p))?;
+        let r = guard(|| dlt_message(input, None, true))
+            .map_err(|p| Violation::from_panic("dlt_message over a stream with junk", &p))?;
         match r {
             Ok((rest, ParsedMessage::Item(m))) => {
                 got.push(m);
                 input = rest;
             }
-            Ok((_, other)) => return Err(viol!("stream:not-item", "stream parse returned {:?}", other)),
+            Ok((_, other)) => {
+                return Err(viol!(
+                    "stream:not-item",
+                    "stream parse returned {:?}",
+                    other
+                ))
+            }
             Err(_) => break,
         }
     }
     if got.len() != msgs.len() {
-        return Err(viol!("stream:count", "stream of {} messages with junk between them yielded {} messages ({})", msgs.len(), got.len(), hex_short(&buf)));
+        return Err(viol!(
+            "stream:count",
+            "stream of {} messages with junk between them yielded {} messages ({})",
+            msgs.len(),
+            got.len(),
+            hex_short(&buf)
+        ));
     }
     for (i, (g, m)) in got.iter().zip(msgs.iter()).enumerate() {
-        msg_eq_bits(&to_crate(m), g).map_err(|d| viol!("stream:message", "message {} of the stream differs: {}", i, d))?;
+        msg_eq_bits(&to_crate(m), g).map_err(|d| {
+            viol!(
+                "stream:message",
+                "message {} of the stream differs: {}",
+                i,
+                d
+            )
+        })?;
     }
     // with a filter: one result per message, in order — the kept ones equal to the originals, the dropped ones with their payload length
     let f = crate::oracle::filter_by_index(filter);
@@ -201,21 +314,42 @@ fn check_stream(msgs: &[RMsg], junks: &[Vec<u8>], filter: u8) -> CheckResult {
         let mut input = &buf[..];
         let mut n = 0usize;
         for _ in 0..msgs.len() + 2 {
-            let r = guard(|| dlt_message(input, Some(f), true)).map_err(|p| Violation::from_panic("dlt_message with filter over a stream with junk", &p))?;
+            let r = guard(|| dlt_message(input, Some(f), true)).map_err(|p| {
+                Violation::from_panic("dlt_message with filter over a stream with junk", &p)
+            })?;
             match r {
                 Ok((rest, pm)) => {
                     let Some(m) = msgs.get(n) else {
-                        return Err(viol!("stream:filter:count", "filtered stream parse of {} messages yields more than {} results ({})", msgs.len(), msgs.len(), hex_short(&buf)));
+                        return Err(viol!(
+                            "stream:filter:count",
+                            "filtered stream parse of {} messages yields more than {} results ({})",
+                            msgs.len(),
+                            msgs.len(),
+                            hex_short(&buf)
+                        ));
                     };
                     match pm {
-                        ParsedMessage::Item(g) => msg_eq_bits(&to_crate(m), &g).map_err(|d| viol!("stream:filter:message", "message {} of the filtered stream differs: {}", n, d))?,
+                        ParsedMessage::Item(g) => msg_eq_bits(&to_crate(m), &g).map_err(|d| {
+                            viol!(
+                                "stream:filter:message",
+                                "message {} of the filtered stream differs: {}",
+                                n,
+                                d
+                            )
+                        })?,
                         ParsedMessage::FilteredOut(k) => {
                             dropped += 1;
                             if k != m.len as usize - m.headers_len() {
                                 return Err(viol!("stream:filter:payload-length", "result {} of the filtered stream is FilteredOut({}) but message {} has a payload of {} bytes", n, k, n, m.len as usize - m.headers_len()));
                             }
                         }
-                        ParsedMessage::Invalid => return Err(viol!("stream:filter:invalid", "result {} of the filtered stream is Invalid", n)),
+                        ParsedMessage::Invalid => {
+                            return Err(viol!(
+                                "stream:filter:invalid",
+                                "result {} of the filtered stream is Invalid",
+                                n
+                            ))
+                        }
                     }
                     n += 1;
                     input = rest;
@@ -228,20 +362,33 @@ fn check_stream(msgs: &[RMsg], junks: &[Vec<u8>], filter: u8) -> CheckResult {
         }
     }
     let some_junk = junks.iter().any(|j| !j.is_empty());
-    Ok(Pass::new(some_junk && msgs.len() >= 2).class_if(f.is_some(), "with-filter").class_if(dropped > 0, "filtered-out-behind-junk").class("stream").class_if(msgs.len() >= 3, "stream>=3-messages"))
+    Ok(Pass::new(some_junk && msgs.len() >= 2)
+        .class_if(f.is_some(), "with-filter")
+        .class_if(dropped > 0, "filtered-out-behind-junk")
+        .class("stream")
+        .class_if(msgs.len() >= 3, "stream>=3-messages"))
 }
 
 /// a small fixed stored message for the boundary enumeration
 fn boundary_message() -> RMsg {
     RMsg {
-        storage: Some(RStorage { secs: 1, micros: 2, ecu: "ECU".to_string() }),
+        storage: Some(RStorage {
+            secs: 1,
+            micros: 2,
+            ecu: "ECU".to_string(),
+        }),
         htyp: UEH | WEID,
         mcnt: 9,
         len: 4 + 4 + 10 + 6,
         ecu: Some("E1".to_string()),
         seid: None,
         tmsp: None,
-        ext: Some(RExt { msin: 0x40, noar: 0, apid: "APP".to_string(), ctid: "CTX".to_string() }),
+        ext: Some(RExt {
+            msin: 0x40,
+            noar: 0,
+            apid: "APP".to_string(),
+            ctid: "CTX".to_string(),
+        }),
         payload: RPayload::NonVerbose(0x01020304, vec![5, 6]),
     }
 }
@@ -249,21 +396,40 @@ fn boundary_message() -> RMsg {
 pub fn check(c: &Case) -> CheckResult {
     match c {
         Case::Search(b) => check_search(b),
-        Case::Parse { junk, msg, suffix, filter } => check_parse(junk, msg, suffix, *filter),
-        Case::Stream { msgs, junks, filter } => check_stream(msgs, junks, *filter),
+        Case::Parse {
+            junk,
+            msg,
+            suffix,
+            filter,
+        } => check_parse(junk, msg, suffix, *filter),
+        Case::Stream {
+            msgs,
+            junks,
+            filter,
+        } => check_stream(msgs, junks, *filter),
     }
 }
 
 pub fn strategy() -> impl Strategy<Value = Case> {
     let fidx = || prop_oneof![1 => Just(0u8), 1 => 1u8..8];
-    let stored = || g::message(g::MsgParams { storage: g::StorageMode::Always, large: false, ..Default::default() });
-    let planted = (vec(prop::sample::select(vec![b'D', b'L', b'T', 1u8, 0]), 0..40), vec((any::<u16>(), Just(b"DLT\x01".to_vec())), 0..3)).prop_map(|(mut b, plants)| {
-        for (p, pat) in plants {
-            let k = (p as usize * (b.len() + 1)) >> 16;
-            b.splice(k..k, pat);
-        }
-        b
-    });
+    let stored = || {
+        g::message(g::MsgParams {
+            storage: g::StorageMode::Always,
+            large: false,
+            ..Default::default()
+        })
+    };
+    let planted = (
+        vec(prop::sample::select(vec![b'D', b'L', b'T', 1u8, 0]), 0..40),
+        vec((any::<u16>(), Just(b"DLT\x01".to_vec())), 0..3),
+    )
+        .prop_map(|(mut b, plants)| {
+            for (p, pat) in plants {
+                let k = (p as usize * (b.len() + 1)) >> 16;
+                b.splice(k..k, pat);
+            }
+            b
+        });
     prop_oneof![
         300 => prop_oneof![vec(any::<u8>(), 0..80), vec(prop::sample::select(vec![b'D', b'L', b'T', 1u8]), 0..24), planted].prop_map(Case::Search),
         150 => (any::<u64>(), 0usize..70_000, 1u8..6, any::<u16>()).prop_map(|(s, l, a, p)| {
@@ -341,7 +507,13 @@ pub fn run(run: &Run) {
         }
         rep
     });
-    run.random("resync", run.cases(300_000, 5_000_000), 0.4, strategy, check);
+    run.random(
+        "resync",
+        run.cases(300_000, 5_000_000),
+        0.4,
+        strategy,
+        check,
+    );
 }
 
 pub fn replay(_section: &str, case: &Json) -> Option<CheckResult> {
